@@ -458,9 +458,204 @@ walk_registry(ProtocolHub)
 # ---------------------------------------------------------------------------------------------
 # 3. ProtocolHub.parse flags
 # ---------------------------------------------------------------------------------------------
+# ProtocolHub.parse is executed SYMBOLICALLY, path by path (same-module helpers are entered, single-assignment locals
+# are just bindings, `logger.x(...)` and cache bookkeeping are skipped): every place where DecodeError
+# (ParseFromString) or UnsupportedVersionException (bound / .parse) can be raised is followed to the handler that
+# catches it, and every path is followed to its return value.  The three flags are statements about those paths,
+# and the no-exception path must return  HUB.bound(<decoded>.WhichOneof('msg'), V).parse(V, <decoded>).
 flags = {"decode_caught": False, "none_guard": False, "unsupported_caught": False}
+
+
+class _HubParseError(Exception):
+    pass
+
+
+def analyse_hub_parse(fn):
+    glob = fn.__globals__
+    node, body = fn_ast(fn)
+    pn = [a.arg for a in node.args.args]
+    if len(pn) != 2:
+        raise _HubParseError("signature")
+    outcomes = []      # dicts: kind return/raise, value, raised: [(exc, site)], assume: {wo: None/NotNone}, events: [...]
+    budget = [4000]
+
+    def is_none_sym(v):
+        return v == ("const", None)
+
+    def nonnull(v):
+        return v[0] in ("new", "decoded", "bound", "parse") or (v[0] == "const" and v[1] is not None)
+
+    def raise_exc(exc, st, handlers):
+        """control goes to the innermost handler catching `exc` (list of (names, body, env_at_try, k_after, outer))"""
+        for i in range(len(handlers) - 1, -1, -1):
+            names, hbody, k_after, ret = handlers[i]
+            if exc in names or "Exception" in names or "BaseException" in names or None in names:
+                st2 = dict(st, raised=st["raised"] + [exc])
+                return block(hbody, st2, handlers[:i], k_after, ret)
+        outcomes.append(dict(st, kind="raise", value=exc, raised=st["raised"] + [exc]))
+
+    def ev(e, st, handlers, k):
+        """evaluate expression e; k(value, st)"""
+        budget[0] -= 1
+        if budget[0] < 0:
+            raise _HubParseError("too many paths")
+        env = st["env"]
+        if isinstance(e, ast.Constant):
+            return k(("const", e.value), st)
+        if isinstance(e, ast.Name):
+            return k(env.get(e.id, ("glob", e.id)), st)
+        if isinstance(e, ast.Attribute):
+            return ev(e.value, st, handlers, lambda b, s2: k(("attr", b, e.attr), s2))
+        if isinstance(e, ast.Call):
+            f = e.func
+            def with_args(args_done, rest, s2, kk):
+                if not rest:
+                    return kk(args_done, s2)
+                return ev(rest[0], s2, handlers, lambda v, s3: with_args(args_done + [v], rest[1:], s3, kk))
+            if e.keywords:
+                kwn = [kw.arg for kw in e.keywords]
+            else:
+                kwn = []
+            argexprs = list(e.args) + [kw.value for kw in e.keywords]
+            if isinstance(f, ast.Attribute) and f.attr in ("WhichOneof", "bound", "parse", "ParseFromString"):
+                def on_base(bv, s2):
+                    def on_args(av, s3):
+                        if kwn and f.attr != "bound":
+                            raise _HubParseError("keyword arguments of ." + f.attr)
+                        if f.attr == "WhichOneof":
+                            return k(("wo", bv, tuple(av)), s3)
+                        if f.attr == "ParseFromString":
+                            raise _HubParseError("ParseFromString used as a value")
+                        if f.attr == "bound":
+                            m = dict(zip(["name", "version"], av[:len(e.args)]))
+                            m.update(zip(kwn, av[len(e.args):]))
+                            val = ("bound", bv, m.get("name"), m.get("version"))
+                        else:
+                            val = ("parse", bv, tuple(av))
+                        s4 = dict(s3, events=s3["events"] + [f.attr])
+                        raise_exc("UnsupportedVersionException", s4, handlers)      # the path where it raises
+                        return k(val, s4)                                              # and the one where it does not
+                    return with_args([], argexprs, s2, on_args)
+                return ev(f.value, st, handlers, on_base)
+            if isinstance(f, ast.Name):
+                tgt = glob.get(f.id)
+                if f.id not in env and tgt is Message and not argexprs:
+                    return k(("new", "Message"), st)
+                if f.id not in env and inspect.isfunction(tgt) and tgt.__globals__ is glob and not kwn:
+                    hnode, hbody = fn_ast(tgt)
+                    hp = [a.arg for a in hnode.args.args]
+                    if len(hp) != len(argexprs) or hnode.args.vararg or hnode.args.kwarg:
+                        raise _HubParseError("helper arity " + f.id)
+                    tie(tgt, "helper %s entered from ProtocolHub.parse" % f.id)
+                    def enter(av, s2):
+                        inner = dict(s2, env=dict(zip(hp, av)))
+                        return block(hbody, inner, handlers, lambda s3: k(("const", None), dict(s3, env=s2["env"])),
+                                     lambda v, s3: k(v, dict(s3, env=s2["env"])))
+                    return with_args([], argexprs, st, enter)
+            return with_args([], argexprs, st, lambda av, s2: k(("call", ast.unparse(f), tuple(av)), s2))
+        if isinstance(e, ast.Compare) and len(e.ops) == 1:
+            return ev(e.left, st, handlers, lambda l, s2: ev(e.comparators[0], s2, handlers,
+                      lambda r, s3: k(("cmp", type(e.ops[0]).__name__, l, r), s3)))
+        if isinstance(e, ast.UnaryOp) and isinstance(e.op, ast.Not):
+            return ev(e.operand, st, handlers, lambda v, s2: k(("not", v), s2))
+        return k(("opaque", ast.unparse(e)), st)
+
+    def truth(v, st):
+        """-> [(bool, st')] possible truth values of a test"""
+        if v[0] == "not":
+            return [(not b, s2) for b, s2 in truth(v[1], st)]
+        if v[0] == "call" and v[1] == "isinstance" and len(v[2]) == 2:
+            if v[2][0] == ("param", pn[1]):
+                return [(v[2][1] == ("glob", "bytes"), st)]        # the property is about byte strings
+        if v[0] == "cmp" and v[1] in ("Is", "IsNot") and is_none_sym(v[3]):
+            x = v[2]
+            if is_none_sym(x):
+                return [(v[1] == "Is", st)]
+            if nonnull(x):
+                return [(v[1] != "Is", st)]
+            if x[0] == "wo":
+                known = st["assume"].get(x)
+                opts = [known] if known else ["none", "some"]
+                return [(((o == "none") == (v[1] == "Is")), dict(st, assume={**st["assume"], x: o})) for o in opts]
+        return [(True, st), (False, st)]
+
+    def block(stmts, st, handlers, k, ret):
+        """execute statements; k(st) at the end, ret(value, st) on return"""
+        if not stmts:
+            return k(st)
+        s0, rest = stmts[0], stmts[1:]
+        nxt = lambda s2: block(rest, s2, handlers, k, ret)
+        if isinstance(s0, ast.Return):
+            if s0.value is None:
+                return ret(("const", None), st)
+            return ev(s0.value, st, handlers, ret)
+        if isinstance(s0, ast.Assign) and len(s0.targets) == 1 and isinstance(s0.targets[0], ast.Name):
+            name = s0.targets[0].id
+            return ev(s0.value, st, handlers, lambda v, s2: nxt(dict(s2, env={**s2["env"], name: v})))
+        if isinstance(s0, ast.Expr) and isinstance(s0.value, ast.Call) and isinstance(s0.value.func, ast.Attribute) \
+                and s0.value.func.attr == "ParseFromString" and isinstance(s0.value.func.value, ast.Name) and len(s0.value.args) == 1:
+            recv = s0.value.func.value.id
+            if st["env"].get(recv) != ("new", "Message"):
+                raise _HubParseError("ParseFromString on something that is not a fresh Message()")
+            def after(av, s2):
+                s3 = dict(s2, events=s2["events"] + ["ParseFromString"])
+                raise_exc("DecodeError", s3, handlers)
+                return nxt(dict(s3, env={**s3["env"], recv: ("decoded", av)}))
+            return ev(s0.value.args[0], st, handlers, after)
+        if isinstance(s0, ast.If):
+            def on_test(v, s2):
+                for b, s3 in truth(v, s2):
+                    block((s0.body if b else s0.orelse) + rest, s3, handlers, k, ret)
+            return ev(s0.test, st, handlers, on_test)
+        if isinstance(s0, ast.Try) and not s0.finalbody and not s0.orelse:
+            hs = list(handlers)
+            for h in reversed(s0.handlers):
+                t = h.type
+                names = [None] if t is None else [(attr_chain(x) or [None])[-1] for x in (t.elts if isinstance(t, ast.Tuple) else [t])]
+                hs.append((names, h.body, nxt, ret))
+            # handlers of one try are alternatives: innermost-first search finds the first matching one
+            return block(s0.body, st, hs, nxt, ret)
+        if isinstance(s0, ast.Raise):
+            outcomes.append(dict(st, kind="raise", value=(st["raised"] or ["?"])[-1] if s0.exc is None else ast.unparse(s0.exc)))
+            return None
+        # anything else (logging, cache bookkeeping) must not touch the dispatch
+        for n in ast.walk(s0):
+            if isinstance(n, ast.Attribute) and n.attr in ("bound", "parse", "ParseFromString", "WhichOneof"):
+                raise _HubParseError("dispatch call in an unrecognised statement: " + ast.unparse(s0)[:80])
+            if isinstance(n, (ast.Return, ast.Raise)):
+                raise _HubParseError("control flow in an unrecognised statement")
+        return nxt(st)
+
+    st0 = {"env": {pn[0]: ("param", pn[0]), pn[1]: ("param", pn[1])}, "raised": [], "assume": {}, "events": []}
+    block(body, st0, [], lambda st: outcomes.append(dict(st, kind="return", value=("const", None))),
+          lambda v, st: outcomes.append(dict(st, kind="return", value=v)))
+    returns_none = lambda o: o["kind"] == "return" and o["value"] == ("const", None)
+    dec = [o for o in outcomes if "DecodeError" in o["raised"]]
+    uns = [o for o in outcomes if "UnsupportedVersionException" in o["raised"]]
+    wnone = [o for o in outcomes if "none" in o["assume"].values() and not o["raised"]]
+    res = {"decode_caught": bool(dec) and all(returns_none(o) for o in dec),
+           "unsupported_caught": bool(uns) and all(returns_none(o) for o in uns),
+           "none_guard": bool(wnone) and all(returns_none(o) and "bound" not in o["events"] for o in wnone)}
+    # the normal path
+    ok = [o for o in outcomes if not o["raised"] and "none" not in o["assume"].values() and o["kind"] == "return" and "parse" in o["events"]]
+    if not ok:
+        raise _HubParseError("no path reaches the dispatch")
+    for o in ok:
+        v = o["value"]
+        good = False
+        if v[0] == "parse" and v[1][0] == "bound" and len(v[2]) == 2:
+            _b, reg, name, ver = v[1]
+            msg = v[2][1]
+            good = (reg == ("glob", ProtocolHub.__name__) and glob.get(ProtocolHub.__name__) is ProtocolHub
+                    and msg[0] == "decoded" and msg[1] in (("param", pn[1]), ("call", "bytes", (("param", pn[1]),)))
+                    and name == ("wo", msg, (("const", "msg"),)) and ver == v[2][0]
+                    and ver is not None and ver[0] == "attr" and ver[1] == ("param", pn[0]) and "version" in ver[2])
+        if not good:
+            raise _HubParseError("the dispatch is not HUB.bound(<decoded>.WhichOneof('msg'), V).parse(V, <decoded>): %r" % (v,))
+    return res
+
+
 try:
-    pnode, pbody = fn_ast(ProtocolHub.parse)
     tie(ProtocolHub.parse, "ProtocolHub.parse")
     tie(Registry.bound.__func__, "Registry.bound")
     tie(PbMessageWrapper.__init__, "PbMessageWrapper.__init__")
@@ -468,39 +663,9 @@ try:
     tie(HubMessage.get_field_value, "HubMessage.get_field_value")
     tie(PbMessageWrapper.__setattr__, "PbMessageWrapper.__setattr__")
     tie(PbMessageWrapper.__getattribute__, "PbMessageWrapper.__getattribute__")
-
-    def handler_returns_none(h, excname):
-        names = []
-        t = h.type
-        for e in (t.elts if isinstance(t, ast.Tuple) else [t] if t is not None else []):
-            ch = attr_chain(e)
-            names.append(ch[-1] if ch else None)
-        if excname not in names:
-            return False
-        last = h.body[-1]
-        return isinstance(last, ast.Return) and (last.value is None or (isinstance(last.value, ast.Constant) and last.value.value is None))
-
-    for n in ast.walk(pnode):
-        if isinstance(n, ast.Try):
-            calls = [c for s in n.body for c in ast.walk(s) if isinstance(c, ast.Call) and isinstance(c.func, ast.Attribute)]
-            if any(c.func.attr == "ParseFromString" for c in calls) and any(handler_returns_none(h, "DecodeError") for h in n.handlers):
-                flags["decode_caught"] = True
-            if any(c.func.attr == "parse" for c in calls) and any(c.func.attr == "bound" for c in calls) \
-                    and any(handler_returns_none(h, "UnsupportedVersionException") for h in n.handlers):
-                flags["unsupported_caught"] = True
-        if isinstance(n, ast.If) and isinstance(n.test, ast.Compare) and isinstance(n.test.ops[0], ast.Is) \
-                and isinstance(n.test.comparators[0], ast.Constant) and n.test.comparators[0].value is None \
-                and isinstance(n.test.left, ast.Name) and n.test.left.id == "msg_type":
-            last = n.body[-1]
-            if isinstance(last, ast.Return) and (last.value is None or getattr(last.value, "value", 1) is None):
-                flags["none_guard"] = True
-    # every bound(...).parse(...) dispatch must sit inside the try
-    for n in ast.walk(pnode):
-        if isinstance(n, ast.Call) and isinstance(n.func, ast.Attribute) and n.func.attr == "parse" \
-                and isinstance(n.func.value, ast.Call) and getattr(n.func.value.func, "attr", "") == "bound":
-            inside = any(isinstance(t, ast.Try) and any(n in list(ast.walk(s)) for s in t.body) for t in ast.walk(pnode))
-            if not inside:
-                flags["unsupported_caught"] = False
+    flags.update(analyse_hub_parse(ProtocolHub.parse))
+except _HubParseError as e:
+    errors.append("ProtocolHub.parse outside the grammar: %s" % (e,))
 except Exception as e:  # noqa
     errors.append("ProtocolHub.parse analysis failed: %r" % (e,))
 
@@ -526,6 +691,9 @@ except Exception as e:  # noqa
 #     uses (the message local, bound to the bound(...)(...) call, is kept);
 #   * `if C: return msg` followed by statements becomes `if not C: statements` (early return vs if/else);
 #   * a bare module-level name used as a constant must be assigned exactly once in its module.
+#   * `for <targets> in <literal tuple/list [of literal tuples]>` (also a local bound once to it, or a module-level
+#     constant tuple assigned once) is unrolled, the targets substituted per element; `setattr(x, "lit", v)` is
+#     `x.lit = v` and `getattr(x, "lit")` is `x.lit`.
 # Nothing is guessed: whatever does not normalise stays as it is and then fails recognition (opaque factory).
 class Opaque(Exception):
     pass
@@ -713,8 +881,76 @@ def normalise_factory(body, glob, regcls, pnames, used):
                 lets[name] = st.value
                 continue
         out.append(st)
+    # (6) for <targets> in <literal tuple/list [of literal tuples]>  ->  the body once per element, targets substituted;
+    #     the sequence may be a local bound once (substituted above) or a module-level constant assigned once;
+    #     setattr(x, "lit", v) == x.lit = v ; getattr(x, "lit") == x.lit
+    out = _DynAttr().visit_list(_unroll(out, glob, set(pnames)))
     for st in out:
         ast.fix_missing_locations(st)
+    return out
+
+
+class _DynAttr(ast.NodeTransformer):
+    def visit_list(self, stmts):
+        return [self.visit(st) for st in stmts]
+
+    def visit_Expr(self, node):
+        self.generic_visit(node)
+        c = node.value
+        if isinstance(c, ast.Call) and isinstance(c.func, ast.Name) and c.func.id == "setattr" and len(c.args) == 3 and not c.keywords \
+                and isinstance(c.args[1], ast.Constant) and isinstance(c.args[1].value, str) and c.args[1].value.isidentifier():
+            return ast.Assign(targets=[ast.Attribute(value=c.args[0], attr=c.args[1].value, ctx=ast.Store())], value=c.args[2])
+        return node
+
+    def visit_Call(self, c):
+        self.generic_visit(c)
+        if isinstance(c.func, ast.Name) and c.func.id == "getattr" and len(c.args) == 2 and not c.keywords \
+                and isinstance(c.args[1], ast.Constant) and isinstance(c.args[1].value, str) and c.args[1].value.isidentifier():
+            return ast.Attribute(value=c.args[0], attr=c.args[1].value, ctx=ast.Load())
+        return c
+
+
+def _literal_sequence(it, glob, local_names):
+    """elements (AST) of a literal tuple/list, or of a module-level constant tuple/list assigned once; else None"""
+    if isinstance(it, (ast.Tuple, ast.List)):
+        return list(it.elts)
+    if isinstance(it, ast.Name) and it.id not in local_names and it.id in glob and isinstance(glob[it.id], (tuple, list)):
+        try:
+            check_module_constants(it, glob, local_names)
+            lit = ast.parse(repr(glob[it.id]), mode="eval").body
+            ast.literal_eval(lit)
+        except Exception:  # noqa
+            return None
+        return list(lit.elts)
+    return None
+
+
+def _unroll(stmts, glob, local_names):
+    out = []
+    for st in stmts:
+        if isinstance(st, ast.If):
+            st = ast.If(test=st.test, body=_unroll(st.body, glob, local_names), orelse=_unroll(st.orelse, glob, local_names))
+        if isinstance(st, ast.For) and not st.orelse:
+            elts = _literal_sequence(st.iter, glob, local_names)
+            tg = [st.target.id] if isinstance(st.target, ast.Name) else \
+                [e.id for e in st.target.elts] if isinstance(st.target, ast.Tuple) and all(isinstance(e, ast.Name) for e in st.target.elts) else None
+            stored = {n.id for b in st.body for n in ast.walk(b) if isinstance(n, ast.Name) and isinstance(n.ctx, ast.Store)}
+            if elts is not None and tg is not None and len(elts) <= 64 and not (stored & set(tg)) \
+                    and not any(isinstance(n, (ast.Break, ast.Continue, ast.Return)) for b in st.body for n in ast.walk(b)):
+                ok, unrolled = True, []
+                for el in elts:
+                    if isinstance(st.target, ast.Name):
+                        m = {tg[0]: el}
+                    elif isinstance(el, (ast.Tuple, ast.List)) and len(el.elts) == len(tg):
+                        m = dict(zip(tg, el.elts))
+                    else:
+                        ok = False
+                        break
+                    unrolled += _unroll([_subst(b, m) for b in st.body], glob, local_names)
+                if ok:
+                    out += unrolled
+                    continue
+        out.append(st)
     return out
 
 
